@@ -62,6 +62,11 @@ def run_walk(rng, name, cfg, objs, focus, n_agents, n_steps, perturb, resets, se
             wk.hits.append(("C03", f"loader tables {diff}", f"the world tables built from the scenario differ from the scenario definition in {diff or 'start hosts'}",
                             {"kind": "load", "scenario": name, "tables": diff,
                              "implementation": {k: WR.canon(T0[k]) for k in diff}, "definition": {k: WR.canon(Wref[k]) for k in diff}}))
+            if "fw" in diff:
+                extra = sorted((WL.n2ip(a_), WL.n2ip(b_)) for a_, bs_ in T0["fw"].items() for b_ in bs_ if b_ not in Wref["fw"].get(a_, set()))[:3]
+                if extra:
+                    wk.hits.append(("C02", "firewall table allows what the scenario does not", f"the firewall table built from the scenario allows connections its definition does not (e.g. {extra}): every action over them takes effect although the firewall precondition does not hold",
+                                    {"kind": "load", "scenario": name, "tables": ["fw"], "implementation": {"fw": WR.canon(T0["fw"])}, "definition": {"fw": WR.canon(Wref["fw"])}}))
             Wref = copy.deepcopy({k: T0[k] for k in T0})     # continue the walk on the implementation's tables
         # ---- agents
         from AIDojoCoordinator.game_components import IP
